@@ -80,7 +80,8 @@ type c13Real struct {
 	file    string
 	etype   uint16
 	segs    []c13Seg
-	syms    []c13Sym // sized symbols as nm prints them, sorted by address
+	syms    []c13Sym   // sized symbols as nm prints them, sorted by address (drives the case generation)
+	tabs    [][]c13Sym // the table per available nm flavour (oracle: consistent with any of them)
 	real    *binutils.Binutils
 }
 
@@ -109,22 +110,38 @@ func (e *c13Env) buildReal(variant string) (*c13Real, error) {
 			rb.segs = append(rb.segs, c13Seg{Type: uint32(p.Type), Flags: uint32(p.Flags), Off: hx(p.Off), Vaddr: hx(p.Vaddr), Filesz: hx(p.Filesz), Memsz: hx(p.Memsz), Align: hx(p.Align)})
 		}
 	}
-	nmOut, err := exec.Command("nm", "--numeric-sort", "--print-size", "--format=posix", out).Output()
-	if err != nil {
-		return nil, fmt.Errorf("nm: %v", err)
+	// symbol tables as the available nm flavours print them (GNU nm omits the size of zero-size
+	// symbols, llvm-nm prints 0: the tables differ; pprof may use either)
+	for _, tool := range []string{"llvm-nm", "nm"} {
+		if _, err := exec.LookPath(tool); err != nil {
+			continue
+		}
+		nmOut, err := exec.Command(tool, "--numeric-sort", "--print-size", "--format=posix", out).Output()
+		if err != nil {
+			continue
+		}
+		var tab []c13Sym
+		sc := bufio.NewScanner(bytes.NewReader(nmOut))
+		sc.Buffer(make([]byte, 1<<20), 1<<20)
+		for sc.Scan() {
+			f := strings.Split(strings.TrimSpace(sc.Text()), " ")
+			if len(f) != 4 {
+				continue
+			}
+			a, e1 := strconv.ParseUint(f[2], 16, 64)
+			s, e2 := strconv.ParseUint(f[3], 16, 64)
+			if e1 != nil || e2 != nil {
+				continue
+			}
+			tab = append(tab, c13Sym{Name: f[0], Type: f[1], Addr: hx(a), Size: hx(s)})
+		}
+		rb.tabs = append(rb.tabs, tab)
+		if tool == "nm" || rb.syms == nil {
+			rb.syms = tab
+		}
 	}
-	sc := bufio.NewScanner(bytes.NewReader(nmOut))
-	for sc.Scan() {
-		f := strings.Split(strings.TrimSpace(sc.Text()), " ")
-		if len(f) != 4 {
-			continue
-		}
-		a, e1 := strconv.ParseUint(f[2], 16, 64)
-		s, e2 := strconv.ParseUint(f[3], 16, 64)
-		if e1 != nil || e2 != nil {
-			continue
-		}
-		rb.syms = append(rb.syms, c13Sym{Name: f[0], Type: f[1], Addr: hx(a), Size: hx(s)})
+	if len(rb.tabs) == 0 {
+		return nil, fmt.Errorf("no nm tool")
 	}
 	rb.real = &binutils.Binutils{}
 	rb.real.SetFastSymbolization(true)
@@ -202,24 +219,29 @@ func (e *c13Env) checkAddr(rb *c13Real, cs *c13Case, wantName string) {
 		c.Violation("C13/real/nm-error", fmt.Sprintf("%s: SourceLine(%#x): %v %v", rb.variant, x, pn, err), cs)
 		return
 	}
-	// oracle from the real nm output: greatest start <= want
-	var g uint64
-	found := false
-	for _, s := range rb.syms {
-		if uint64(s.Addr) <= want {
-			g, found = uint64(s.Addr), true
-		}
-	}
+	// oracle from the real nm output: greatest start <= want, in the table of any nm flavour
 	gotName := ""
 	if len(frames) > 0 {
 		gotName = frames[0].Func
 	}
 	okName := false
-	for _, s := range rb.syms {
-		if found && uint64(s.Addr) == g {
-			if s.Name == gotName || (gotName == "" && nmIsData(s.Type) && want >= uint64(s.Addr+s.Size)) {
-				okName = true
+	var g uint64
+	for _, tab := range rb.tabs {
+		found := false
+		for _, s := range tab {
+			if uint64(s.Addr) <= want {
+				g, found = uint64(s.Addr), true
 			}
+		}
+		for _, s := range tab {
+			if found && uint64(s.Addr) == g {
+				if s.Name == gotName || (gotName == "" && nmIsData(s.Type) && want >= uint64(s.Addr+s.Size)) {
+					okName = true
+				}
+			}
+		}
+		if !found && gotName == "" {
+			okName = true
 		}
 	}
 	if !okName {
